@@ -160,7 +160,7 @@ def c01b(ctx):
     bp = ctx.fn('mapproxy/image/__init__.py:bbox_position_in_image')
     rets = returns_of(bp.node)
     ok = len(rets) == 1 and isinstance(rets[0].value, ast.Tuple) and len(rets[0].value.elts) == 3 and \
-        unparse(rets[0].value.elts[1]).replace(' ', '') == '(offsets[0],offsets[3])' and 'sub_bbox' in unparse(rets[0].value.elts[2])
+        same(rets[0].value.elts[1], '(offsets[0],offsets[3])') and 'sub_bbox' in unparse(rets[0].value.elts[2])
     ctx.check(ok, 'bbox_position_in_image:returns', 'returns (size, (left offset, top offset), sub bbox)', bp,
               fail='bbox_position_in_image does not return (size, (offsets[0], offsets[3]), sub_bbox)')
 
@@ -226,7 +226,7 @@ def c01c(ctx):
     if ok:
         v = rets[0].value
         ok = isinstance(v, ast.Call) and is_call(v.func, 'make_lin_transf') and same(v.args[0], 'self.pos') and \
-            unparse(v.func.args[0]).replace(' ', '') == '(0,0,self.size[0],self.size[1])' and unparse(v.func.args[1]) == 'self.bbox'
+            same(v.func.args[0], '(0,0,self.size[0],self.size[1])') and same(v.func.args[1], 'self.bbox')
     ctx.check(ok, 'InfoQuery.coord:form', 'coord = make_lin_transf((0, 0, size[0], size[1]), bbox)(pos): pixel rectangle first, ground bbox second', co,
               fail='InfoQuery.coord is not make_lin_transf((0, 0, size[0], size[1]), bbox)(pos)')
     wf = ctx.fn('mapproxy/service/wmts.py:WMTSServer.featureinfo')
